@@ -356,4 +356,13 @@ theorem pathOf_roundtrip (l : List Nat) (h : ∀ c ∈ l, c < 184467440737095516
         rw [h1, h2, ih f' (fun x hx => hc x (List.mem_cons_of_mem _ hx)) (by omega)]
   exact key l _ h (Nat.le_refl _)
 
+/-- **Known finding, stated on the model**: the full-strength claim "a parent TLV that has room is appended to the next
+Announce" is false — a TLV that would be dropped anyway but does not fit blocks the queue (witness: room 10, a
+20-octet TLV of another sender, then a 4-octet TLV of the parent: nothing is forwarded, nothing is consumed). -/
+theorem head_of_line_blocking :
+    ∃ (parent other : PortId) (q : List FwdTlv) (margin : Nat),
+      parent ≠ other ∧ q = [⟨⟨0x4000, List.replicate 16 0⟩, other⟩, ⟨⟨0x4000, []⟩, parent⟩] ∧
+      (4 : Nat) < margin ∧ fwdLoop parent false false (q.length + 1) q margin [] = ([], q) :=
+  ⟨⟨1, 1⟩, ⟨2, 1⟩, _, 10, by decide, rfl, by decide, by decide⟩
+
 end Statime.C15
